@@ -199,6 +199,12 @@ func MakeValue(class string, r *rand.Rand) (interface{}, error) {
 		if n > 0 && variant != "" {
 			b[0] = variant[0]
 		}
+		// every third string holds multi-byte UTF-8 (still N bytes): its length in characters differs from its length in bytes
+		if n >= 3 && r.Intn(3) == 0 {
+			for i := n - 2; i >= 1 && i >= n-6; i -= 2 {
+				b[i], b[i+1] = 0xC3, 0xA9 // U+00E9
+			}
+		}
 		return string(b), nil
 	case strings.HasPrefix(base, "ai"):
 		n, err := num("ai")
